@@ -376,6 +376,9 @@ fn run_positions_case(c: &Case) -> Result<(), String> {
                         cur = *o;
                     }
                 }
+                Some(Op::SetMode(m)) => {
+                    if *m < c.modes.len() { it.set_mode(*m); }
+                }
                 Some(Op::Position(o)) => {
                     if *o <= frontier {
                         let p = it.position(*o);
@@ -448,6 +451,9 @@ fn variant(base: &[ModeSpec], v: usize) -> Option<Vec<ModeSpec>> {
             m[0].pats[0].tt = tt0 + 1;
             m[0].pats[1].tt = m[0].pats[1].tt.wrapping_sub(K4);
         }
+        10 => m[0].pats.push(PatSpec { p: ["a", "b", "c", "é"][base[0].pats.len() % 4].into(), tt: 95, la: None }), // the base list is a proper prefix of this one
+        11 => { m.truncate(1); m[0].trans.clear(); } // a single mode without transitions
+        12 => { m.truncate(1); m[0].trans.clear(); m[0].name = "INITIAL".into(); }
         _ => return None,
     }
     Some(m)
@@ -734,7 +740,9 @@ const PATS: &[&str] = &["a", "b", "c", "ab", "abc", "a+", "b+", "[ab]", "[ab]+",
     ".", "[^\n]+", "a{2}", "a{1,2}b", "(ab)+", "(a|b)*c", "b?c?a", "€", "[€😀]+", "a{2,}", "(a|)c", "x|\n+",
     "a+b", "a{2,}b", "ca{0,}b", "ab?", "b{0,2}c", "(a|b?)*c", "(a*)+b", "a(|b|c)a", "[ab]{2}", "c(ab)?",
     // named classes in both polarities (they agree with the regex crate on the alphabet used here)
-    "\\pL+", "\\PL", "\\w+", "\\W", "\\s", "\\S+", "[^\\W]+", "\\p{Lowercase}+", "\\P{Lowercase}"];
+    "\\pL+", "\\PL", "\\w+", "\\W", "\\s", "\\S+", "[^\\W]+", "\\p{Lowercase}+", "\\P{Lowercase}",
+    // tokens that run over several lines
+    "[a-c\n]+", "a\nb", "\n(b\n)+", "[^x]+x", "(b|\n)+c"];
 const LAS: &[&str] = &["a", "b", "c", "bc", "b+", "é", "[ab]", "x", "c+", "\n", "bc?", "b{1,2}", "ab?", "b|bc", "b*c", "a?b", "(ab)+", "c{2}"];
 const ALPHA: &[char] = &['a', 'b', 'c', 'é', '\n', 'x', 'a', 'b', '€', '😀', 'c', '\n'];
 
@@ -984,7 +992,7 @@ fn gen_case(family: &str, r: &mut Rng) -> Case {
             pats2.push(PatSpec { p: uniq, tt: 91, la: None });
             let input = gen_input(r, 7);
             let nops = 2 + r.below(5);
-            let mut ops: Vec<Op> = (0..nops).map(|_| Op::SetMode(r.below(10))).collect();
+            let mut ops: Vec<Op> = (0..nops).map(|_| Op::SetMode(r.below(13))).collect();
             if r.below(2) == 0 { ops.insert(0, Op::SetMode(0)); ops.insert(0, Op::SetMode(9)); }
             let t0 = pats[0].tt;
             Case { family: family.into(), modes: vec![ModeSpec { name: "M0".into(), pats, trans: if r.below(2) == 0 { vec![(t0, 1)] } else { vec![] } },
@@ -1021,19 +1029,27 @@ fn gen_case(family: &str, r: &mut Rng) -> Case {
                    input: "aZdm05_ \t\n\ré€-^.~\u{0}\u{7f}\u{a0}\u{b2}\u{2167}\u{3b1}\u{391}\u{10ffff}".into(), start_offset: 0, ops: vec![], with_positions: false }
         }
         "positions" => {
-            let pats = gen_pats(r, false, npat, 0);
-            let input = gen_input(r, 16);
+            // one or two modes (set_mode + set_offset back into scanned text re-tokenises it differently), inputs with many line breaks, tokens over several lines
+            let nm = 1 + r.below(2);
+            let mut modes = vec![];
+            for mi in 0..nm {
+                let np = if mi == 0 { npat.max(1) } else { 1 + r.below(2) };
+                modes.push(ModeSpec { name: format!("M{mi}"), pats: gen_pats(r, false, np, 0), trans: vec![] });
+            }
+            let n = r.below(15);
+            let input: String = (0..n).map(|_| *r.pick(&['a', 'b', 'c', '\n', '\n', 'x', 'é', 'b', '\n'])).collect();
             let b = boundaries(&input);
             let nops = 4 + r.below(16);
             let mut ops = vec![];
             for _ in 0..nops {
-                ops.push(match r.below(8) {
+                ops.push(match r.below(9) {
                     0 => Op::SetOffset(*r.pick(&b)),
                     1 => Op::Position(*r.pick(&b)),
+                    2 => Op::SetMode(r.below(nm)),
                     _ => Op::Next,
                 });
             }
-            Case { family: family.into(), modes: vec![ModeSpec { name: "M0".into(), pats, trans: vec![] }], input, start_offset: 0, ops, with_positions: true }
+            Case { family: family.into(), modes, input, start_offset: 0, ops, with_positions: true }
         }
         _ => panic!("unknown family {family}"),
     }
